@@ -269,8 +269,10 @@ def _kind_of(rel):
     return "elsewhere"
 
 
-def check_outputs(world, plan, cmd, out_rel, before, after):
-    """J4/J5 — on ok real runs."""
+def check_outputs(world, plan, cmd, out_rel, before, after, prior=None):
+    """J4/J5 — on ok real runs.  `prior`: {rel: 'Generated from' markers the file already held before this command} — what
+    an earlier command (possibly for another module) left in a file this one merged into is not this command's output."""
+    prior = prior or {}
     v = []
     created, modified, _ = SimWorld.diff(before, after)
     touched = [p for p in created + modified if p.endswith(".py") and after[p][0] == "f"]
@@ -284,7 +286,8 @@ def check_outputs(world, plan, cmd, out_rel, before, after):
                       "sig": {"what": "unparsable", "emit": cmd["emit"]}})
             continue
         for m in _GEN_FROM.findall(text):
-            headers.setdefault(m, rel)
+            if m not in prior.get(rel, ()):
+                headers.setdefault(m, rel)
         defined = set()
         all_names = None
         for node in mod.body:
@@ -463,6 +466,11 @@ def simulate(plan, enumerate_all=None):
                     res.violations.append(x)
                 world.restore(cp)
             before = world.snapshot(with_mtime=True)
+            prior = {}
+            if populated and not cmd["dry"]:
+                for p_ in before:
+                    if p_.startswith(out_rel + os.sep) and p_.endswith(".py") and before[p_][0] == "f":
+                        prior[p_] = set(_GEN_FROM.findall(world.read(p_)))
             _purge_pkg(pkg)
             o = ops.invoke(world, op, faults=[fault] if fault else None, black=plan.get("black", True))
             after = world.snapshot(with_mtime=True)
@@ -485,7 +493,8 @@ def simulate(plan, enumerate_all=None):
                         bump(probe, "dry_over_populated_output")
                 else:
                     v2, headers = check_outputs(world, plan, cmd, out_rel,
-                                                {k: x[:4] for k, x in before.items()}, {k: x[:4] for k, x in after.items()})
+                                                {k: x[:4] for k, x in before.items()}, {k: x[:4] for k, x in after.items()},
+                                                prior)
                     viols += v2
                     if headers:
                         bump(probe, "real_run_ok_wrote_symbol")
